@@ -99,6 +99,8 @@ pub enum Op {
   // pass-through operators (not in C03's list, same list semantics = identity)
   Finalize,
   BoxIt,
+  /// the stream relayed through a Subject used as observer (publish + connect)
+  Relay,
 }
 
 pub const C03_OPS: &[Op] = &[
@@ -144,7 +146,7 @@ pub const C03_OPS: &[Op] = &[
   Op::OnErrorMap,
 ];
 
-pub const PASS_OPS: &[Op] = &[Op::Finalize, Op::BoxIt];
+pub const PASS_OPS: &[Op] = &[Op::Finalize, Op::BoxIt, Op::Relay];
 
 /// Operator parameters (drawn by the harness).
 #[derive(Clone, Debug)]
@@ -191,7 +193,7 @@ pub fn sem(op: Op, p: &P, input: &Script, alt: bool) -> Script {
     Op::MapTo => same(xs.iter().map(|_| p.th.clone()).collect()),
     Op::Filter => same(xs.iter().filter(|v| pred(p.pk, &p.th, v)).cloned().collect()),
     Op::FilterMap => same(xs.iter().filter(|v| pred(p.pk, &p.th, v)).map(|v| plus(v, &p.th)).collect()),
-    Op::Tap | Op::Finalize | Op::BoxIt => same(xs.clone()),
+    Op::Tap | Op::Finalize | Op::BoxIt | Op::Relay => same(xs.clone()),
     Op::Take => {
       if p.n == 0 {
         if alt {
